@@ -615,8 +615,11 @@ func c01RunTransports(c *kit.Ctx) {
 				time.Sleep(time.Millisecond)
 			}
 		}
-		// spaced filler so that buffered writers flush their tail (excluded from the verdict: ids above the sentinel)
-		for k := 0; k < 12; k++ {
+		// spaced filler so that buffered writers flush their tail (excluded from the verdict: ids above the sentinel).
+		// The session's buffered connection flushes only on a write that comes later than its flush interval after the
+		// previous flush: fillers that reach the server bunched together (a starved server under load) leave the tail
+		// in the buffer, so more fillers follow, well spaced, until every reliable reader has the sentinel.
+		filler := func(k int) {
 			id := uint32(n + 2 + k)
 			nal := kit.H264NAL(2, 1, 900, uint64(id))
 			pk := kit.MakeRTP(kit.ChVideo, 96, true, uint16(id), id, c01SSRC, nal)
@@ -625,9 +628,8 @@ func c01RunTransports(c *kit.Ctx) {
 			pub.nals[id] = nal
 			pub.mu.Unlock()
 			pubc.WriteFrame(0, pk.Data)
-			time.Sleep(40 * time.Millisecond)
 		}
-		waitUntil(func() bool {
+		allHaveSentinel := func() bool {
 			for _, r := range recs {
 				if !r.reliable {
 					continue
@@ -646,7 +648,17 @@ func c01RunTransports(c *kit.Ctx) {
 				}
 			}
 			return true
-		}, 10*time.Second)
+		}
+		for k := 0; k < 12; k++ {
+			filler(k)
+			time.Sleep(40 * time.Millisecond)
+		}
+		for k := 12; k < 12+150 && !allHaveSentinel(); k++ {
+			filler(k)
+			time.Sleep(200 * time.Millisecond)
+			c.Count("extra_fillers_to_flush_the_tail", 1)
+		}
+		waitUntil(allHaveSentinel, 10*time.Second)
 		atomic.StoreInt32(&stop, 1)
 		pubc.Close()
 		wg.Wait()
